@@ -14,7 +14,7 @@ from ..lib import (
     type_is,
 )
 from ..report import describe, rule
-from .common import DEPRECATED_HOOKS, HOOK_FIELDS, RUN_CMD, command_arg, expand_cmd, hook_sites, run_command_sites
+from .common import DEPRECATED_HOOKS, HOOK_FIELDS, RUN_CMD, command_arg, expand_cmd, expand_cmd_deep, hook_sites, run_command_sites
 
 P = "C16"
 
@@ -268,7 +268,7 @@ def c16_3(ctx, r):
         # deprecated per-group script alternative: its own call sites also count as "the hook ran"
         alt_nodes = []
         for s in run_command_sites(ctx, fn):
-            e, _ = expand_cmd(ctx, fn, s)
+            e, _ = expand_cmd_deep(ctx, fn, s)
             if e is not None and f"<SubmitterParams.{dep}>" in render(ctx, fn, e):
                 alt_nodes += _cfg_nodes(ctx, fn, s)
         hook_nodes = []
@@ -410,3 +410,50 @@ def c16_6(ctx, r):
 
     c05_4(ctx, r)
     c05_5(ctx, r)
+
+
+@rule(P, "C16.7", "T9", "the lifecycle-command accessors agree: each setter stores the attribute its getter reads", min_obligations=4)
+def c16_7(ctx, r):
+    from ..lib import property_setter_mismatches
+
+    base = ctx.cls("JobConfiguration", "C16.7")
+    n, bad = property_setter_mismatches(ctx, ctx.ix.subclasses(base))
+    for c, name, ga, sa, st in bad:
+        r.bad(key_of(st, f"setter of {name} stores {sa}"), st.loc(), f"{c.name}.{name}: the getter returns self.{ga} but the setter stores self.{sa}: a command assigned through the property is lost "
+              f"(and lands in `{sa}`, i.e. runs at another time / place)", "The setup command runs once on the submitting host ... the teardown command runs exactly once ...")
+    for _ in range(n - len(bad)):
+        r.ok("getter/setter pair agrees")
+    if n < 4:
+        raise AnalysisError("C16.7", f"only {n} plain getter/setter pairs found in the JobConfiguration hierarchy (4 lifecycle commands expected)")
+
+
+def queue_accounting(ctx, r, rid):
+    """JobQueue.wait() asserts _num_completed == _num_jobs after the last entry ended.  Every entry that becomes
+    outstanding after construction must therefore be counted where it is inserted - otherwise the assertion fails
+    after all jobs ran and run_jobs leaves by exception before the node teardown command and before try-submit-jobs."""
+    jq = ctx.cls("JobQueue", rid)
+    n = 0
+    for m in jq.methods.values():
+        if m.name == "__init__":
+            continue
+        for st in iter_own(m.node):
+            if isinstance(st, ast.Assign) and isinstance(st.targets[0], ast.Subscript) and ctx.src(st.targets[0].value) == "self._outstanding_jobs":
+                n += 1
+                par = ctx.parents(m).get(id(st))
+                blk = next((getattr(par, f) for f in ("body", "orelse", "finalbody") if isinstance(getattr(par, f, None), list) and st in getattr(par, f)), [])
+                inc = [x for x in blk if isinstance(x, ast.AugAssign) and isinstance(x.op, ast.Add) and ctx.src(x.target) == "self._num_jobs" and ctx.src(x.value) == "1"]
+                r.check(len(inc) == 1, f"{m.short}: an entry that becomes outstanding is counted once in _num_jobs", key_of(m, "outstanding entry not counted"), m.loc(st),
+                        f"`{ctx.src(st)}` is paired with {len(inc)} increments of self._num_jobs in its block: JobQueue.wait() ends in `assert _num_completed == _num_jobs`, which then fails after every job "
+                        "of the batch has ended - run_jobs is left by that exception before the node teardown command runs (and before the node triggers try-submit-jobs)",
+                        "the node teardown command after all of them ended")
+    w = jq.methods.get("wait")
+    has_assert = w is not None and any(isinstance(x, ast.Assert) and "_num_completed" in ctx.src(x.test) and "_num_jobs" in ctx.src(x.test) for x in iter_own(w.node))
+    if not has_assert:
+        r.note("JobQueue.wait() no longer asserts the completed/started balance: the pairing is then only bookkeeping")
+    if n < 2:
+        raise AnalysisError(rid, f"only {n} insertions into _outstanding_jobs found outside __init__ (start and cancel expected)")
+
+
+@rule(P, "C16.8", "T3", "the node queue's started/completed balance holds, so wait() returns and the node teardown hook is reached", min_obligations=2)
+def c16_8(ctx, r):
+    queue_accounting(ctx, r, "C16.8")
